@@ -6,6 +6,8 @@ pub(crate) fn vk_doorkeeper_with_fp() -> DoorKeeper { DoorKeeper { bloom: Bloom:
 pub(crate) fn vk_doorkeeper_exact() -> DoorKeeper { DoorKeeper { bloom: Bloom::vk_exact() } }
 pub(crate) fn vk_members(d: &DoorKeeper) -> usize { d.bloom.vk_len() }
 pub(crate) fn vk_place(d: &mut DoorKeeper, slot: usize, h: u64) { d.bloom.vk_place(slot, h); }
+/// slot holds `h` iff `member` (unconditional store of a symbolic flag: keeps the occupancy array's shape concrete)
+pub(crate) fn vk_place_if(d: &mut DoorKeeper, slot: usize, h: u64, member: bool) { d.bloom.vk_place_if(slot, h, member); }
 
 /// C14: first-access filter: add_if_missing reports "added" exactly when the key was not reported present,
 /// afterwards the key is present (no false negatives); clear forgets every recorded member.
